@@ -101,7 +101,7 @@ def run(ck):
     ck.assumptions += ['tightness between witnesses is bounded by the witness spacing for generic curves (not decided exactly)',
                        'arcs with rotation off multiples of 90 degrees and unequal radii: witnesses only']
     ck.tlc('BezierBox', 'BezierBox_MC.cfg', need_actions=['Step'])
-    r = ck.tlc('BezierBox', 'SPECIFICATION Spec\nCONSTANTS Vals <- ValsA\n W = 8\n MaxDen = 7\nCONSTRAINT AtStart\nINVARIANT Dump\n', workers=1, coverage=False)
+    r = ck.tlc('BezierBox', 'SPECIFICATION Spec\nCONSTANTS Vals <- ValsA\n W = 8\n MaxDen = 7\n Degs <- DegsAll\nCONSTRAINT AtStart\nINVARIANT Dump\n', workers=1, coverage=False)
     by = {}
     for c in r.cases:
         by.setdefault(len(c['P']), []).append(c)
